@@ -472,7 +472,8 @@ fn main() {
         // A0 runs every configuration; A8 / A64 (which change the header layout) a subset
         let ci = match base_kind {
             0 => only_cfg.unwrap_or_else(|| rng.below(CFGS.len() as u64)) as usize % CFGS.len(),
-            1 => [0usize, 1, 3][rng.below(3) as usize],
+            // 9 (MINIMUM_CHUNK_SIZE 64): with the 48-byte header of `A8` the first chunk is NOTHING BUT its header (capacity 0)
+            1 => [0usize, 1, 3, 9][rng.below(4) as usize],
             2 => [0usize, 1, 7][rng.below(3) as usize],
             _ => [0usize, 1][rng.below(2) as usize],
         };
@@ -534,7 +535,8 @@ fn main() {
                 6 => (true, false, true, false, 512), 7 => (false, false, false, false, 4096), 8 => (true, true, true, true, 4096),
                 9 => (false, true, true, true, 64)]),
             1 => dispatch_cfg!(A8, &mut ctx, ma, ci, unalloc, [
-                0 => (true, true, true, true, 512), 1 => (false, true, true, true, 512), 3 => (false, false, true, true, 512)]),
+                0 => (true, true, true, true, 512), 1 => (false, true, true, true, 512), 3 => (false, false, true, true, 512),
+                9 => (false, true, true, true, 64)]),
             2 => dispatch_cfg!(A64, &mut ctx, ma, ci, unalloc, [
                 0 => (true, true, true, true, 512), 1 => (false, true, true, true, 512), 7 => (false, false, false, false, 4096)]),
             _ => dispatch_cfg!(A256, &mut ctx, ma, ci, unalloc, [
